@@ -42,6 +42,7 @@ func runC18(e *Engine, g G, o RunOpt) RunInfo {
 	sc.IntervalNs = int64(base) + 1
 	sc.Client.KeepaliveNs = sc.IntervalNs
 	sc.Client.SM = g.Pct("sm", 30)
+	sc.Client.WebSocket = g.Pct("websocket", 20)
 	sc.Busy = g.Bool("busy")
 	sc.End = []string{"none", "cut", "disconnect", "stream-error", "ka-write-fails", "server-close"}[g.Weighted("end", 2, 3, 3, 2, 4, 3)]
 	sc.Block = sc.End != "none" && g.Pct("callback-blocks", 30)
@@ -70,7 +71,16 @@ func runC18(e *Engine, g G, o RunOpt) RunInfo {
 		var ok bool
 		srvScript := DefaultNeg()
 		srvScript.SM = sc.Client.SM
-		s, ok = StartClientNoSettle(e, sc.Client, []NegScript{srvScript}, func(w *CW, srv *Server) { w.CatchAll() })
+		if sc.Client.WebSocket {
+			s, ok = StartClientWS(e, sc.Client, sc.Client.SM, func(w *CW) { w.CatchAll() })
+			defer s.WS.Stop()
+			if ok {
+				s.Cli.IsKeepalive = WSPing
+				e.Probe("c18.websocket")
+			}
+		} else {
+			s, ok = StartClientNoSettle(e, sc.Client, []NegScript{srvScript}, func(w *CW, srv *Server) { w.CatchAll() })
+		}
 		if !ok {
 			return
 		}
@@ -96,10 +106,10 @@ func runC18(e *Engine, g G, o RunOpt) RunInfo {
 			e.Go("busy", func() {
 				for i := 0; i < 3*sc.Ticks; i++ {
 					e.Sleep(interval/3 + 7*time.Microsecond)
-					if s.Conn.Dead || cli.IsClosed() {
+					if s.SrvDead() || cli.IsClosed() {
 						return
 					}
-					s.Conn.Send(fmt.Sprintf("<message id='b%d' from='peer@%s'><body>busy</body></message>", i, SimDomain))
+					s.SrvSend(fmt.Sprintf("<message id='b%d' from='peer@%s'><body>busy</body></message>", i, SimDomain))
 					e.Yield("busy.send")
 					s.W.Client.SendRaw(fmt.Sprintf("<message id='c%d' to='peer@%s'><body>busy too</body></message>", i, SimDomain))
 					e.Yield("busy.sent")
@@ -120,16 +130,20 @@ func runC18(e *Engine, g G, o RunOpt) RunInfo {
 			tFault = e.Now()
 			switch sc.End {
 			case "cut":
-				cli.CutAt = s.Conn.End.TotalWritten
+				cli.CutAt = s.SrvEnd().TotalWritten
 				cli.CutErr = io.EOF
 				e.Fault("conn.cut.at_time")
 			case "disconnect":
 				e.Call("Disconnect", s.W.Client.Disconnect)
 			case "stream-error":
-				s.Conn.Send("<stream:error><conflict xmlns='" + nsStreams + "'/></stream:error>")
+				s.SrvSend("<stream:error xmlns:stream='" + nsStream + "'><conflict xmlns='" + nsStreams + "'/></stream:error>")
 				e.Fault("stream.error")
 			case "server-close":
-				s.Conn.Send("</stream:stream>")
+				if s.WSC != nil {
+					s.WSC.Send("<close xmlns='" + nsFraming + "'/>")
+				} else {
+					s.Conn.Send("</stream:stream>")
+				}
 				e.Fault("server.graceful_close")
 			}
 			// the session is over once the loss was reported / Disconnect returned
@@ -138,7 +152,8 @@ func runC18(e *Engine, g G, o RunOpt) RunInfo {
 			} else {
 				// the end of the session is announced by a Disconnected event (loss)
 				// or a StreamError event (the server ended the stream with an error)
-				e.WaitUntilFor("await-end", time.Duration(sc.Client.ConnectTimeout+10)*time.Second, func() bool {
+				// (on the WebSocket transport a lost connection is only noticed by the next keepalive)
+				e.WaitUntilFor("await-end", 2*interval+time.Duration(sc.Client.ConnectTimeout+10)*time.Second, func() bool {
 					return countState(s.W.Events, xmpp.StateDisconnected)+countState(s.W.Events, xmpp.StateStreamError) > 0
 				})
 				tEnd = lastDisconnected(s.W)
